@@ -70,7 +70,6 @@ Section Cpc.
   Variable nstate : Type.
   Variable native_step : nstate -> nmsg -> option (nstate * list nevent).
   Variable q_rewards : nstate -> Z -> list (Z * Z) * bool.
-  Variable q_rewards_touch : nstate -> Z -> nstate.
   Variable q_balance : nstate -> Z -> Z.
   Variable q_delegated_bonded : nstate -> Z -> list vinfo.
   Variable q_bonded : nstate -> list vinfo.
@@ -79,7 +78,7 @@ Section Cpc.
   Variable recover : Z -> Z -> option Z.
 
   Notation run_native := (run_native nstate native_step).
-  Notation cpc_step := (cpc_step nstate native_step q_rewards q_rewards_touch q_balance q_delegated_bonded q_bonded chain_id typed_hash recover).
+  Notation cpc_step := (cpc_step nstate native_step q_rewards q_balance q_delegated_bonded q_bonded chain_id typed_hash recover).
   Notation withdraw_all_msgs := (withdraw_all_msgs nstate q_rewards).
   Notation sig_ok := (sig_ok chain_id typed_hash recover).
   Notation finish := (finish nstate).
@@ -132,22 +131,14 @@ Section Cpc.
     inversion H; subst. exists evs. auto.
   Qed.
 
-  (* which state the native messages start from: withdrawRewards()'s query has run on the live context *)
-  Definition pre_state (s : nstate) (caller : Z) (c : call) : nstate :=
-    match c with
-    | CWithdrawRewards | CTransfer _ _ => q_rewards_touch s caller
-    | CWithdrawRewardsByMessage m _ => match wm_from m with FromAll => q_rewards_touch s caller | _ => s end
-    | _ => s
-    end.
-
   (* ---- main lemma: a successful call = its native messages, issued for the caller, and the logs of their events *)
   Lemma cpc_step_sound : forall s caller c s' logs ret ms,
     cpc_step s caller c = Some (s', logs, ret, ms) ->
     Forall (fun m => msg_delegator m = caller) ms /\
-    exists evs, run_native (pre_state s caller c) ms = Some (s', evs) /\ emit caller evs = Some logs.
+    exists evs, run_native s ms = Some (s', evs) /\ emit caller evs = Some logs.
   Proof.
     intros s caller c s' logs ret ms H.
-    destruct c as [v a|v a|src dst a|m sig|v| |m sig|to a]; cbn [StakingCpc.cpc_step pre_state] in H |- *.
+    destruct c as [v a|v a|src dst a|m sig|v| |m sig|to a]; cbn [StakingCpc.cpc_step] in H |- *.
     - destruct (0 <? a); [|discriminate]. apply finish_inv in H as [evs [Hr [He [_ ->]]]].
       split; [repeat constructor|]. eauto.
     - destruct (0 <? a); [|discriminate]. apply finish_inv in H as [evs [Hr [He [_ ->]]]].
@@ -167,7 +158,7 @@ Section Cpc.
       + split; [apply withdraw_all_msgs_delegator|]. eauto.
       + split; [repeat constructor|]. eauto.
     - destruct (negb (caller =? 0) && negb (to =? 0) && (caller =? to) && (0 <? a)); [|discriminate].
-      destruct (run_native (q_rewards_touch s caller) (withdraw_all_msgs s caller)) as [[s1 e1]|] eqn:Hw; [|discriminate].
+      destruct (run_native s (withdraw_all_msgs s caller)) as [[s1 e1]|] eqn:Hw; [|discriminate].
       destruct (q_balance s1 caller <? a); [discriminate|].
       destruct (pick_validator (q_delegated_bonded s1 caller) (q_bonded s1)) as [v|]; [|discriminate].
       destruct (native_step s1 (MsgDelegate caller v a)) as [[s2 e2]|] eqn:Hd; [|discriminate].
@@ -183,7 +174,7 @@ Section Cpc.
 
   Lemma equiv_native : forall s caller c s' logs ret ms,
     cpc_step s caller c = Some (s', logs, ret, ms) ->
-    exists evs, run_native (pre_state s caller c) ms = Some (s', evs) /\ logs = flat_map (logs_of_event caller) evs
+    exists evs, run_native s ms = Some (s', evs) /\ logs = flat_map (logs_of_event caller) evs
                 /\ existsb counted evs = true.
   Proof.
     intros s caller c s' logs ret ms H. destruct (cpc_step_sound _ _ _ _ _ _ _ H) as [_ [evs [Hr He]]].
@@ -288,6 +279,201 @@ Section Cpc.
     pose proof (logs_of_event_delegators _ _ _ Hl) as Hs.
     destruct e, l; cbn [ev_for log_delegator] in *; try contradiction; destruct Hs as [-> _]; auto.
   Qed.
+
+  (* ---------------------------------------------------------------- the call IS the native submission *)
+  Notation native_prog := (native_prog nstate native_step q_rewards q_balance q_delegated_bonded q_bonded chain_id typed_hash recover).
+  Notation guard := (guard chain_id typed_hash recover).
+  Notation first_msgs := (first_msgs nstate q_rewards).
+  Notation second_msgs := (second_msgs nstate q_balance q_delegated_bonded q_bonded).
+
+  Definition of_prog (d : Z) (r : option (nstate * list nevent * list nmsg)) : cres nstate :=
+    match r with
+    | None => None
+    | Some (s', evs, ms) => match emit d evs with Some logs => Some (s', logs, true, ms) | None => None end
+    end.
+
+  Lemma prog_single_batch : forall s d c m1,
+    guard d c = true -> first_msgs s d c = Some m1 -> (forall s1, second_msgs s1 d c = Some []) ->
+    native_prog s d c = match run_native s m1 with None => None | Some (s1, e1) => Some (s1, e1, m1) end.
+  Proof.
+    intros s d c m1 Hg Hf Hs. unfold StakingCpc.native_prog. rewrite Hg, Hf.
+    destruct (run_native s m1) as [[s1 e1]|]; [|reflexivity]. rewrite Hs. cbn [StakingCpc.run_native].
+    now rewrite !app_nil_r.
+  Qed.
+
+  Lemma finish_of_prog : forall d ms s,
+    finish d true ms (run_native s ms) =
+    of_prog d (match run_native s ms with None => None | Some (s1, e1) => Some (s1, e1, ms) end).
+  Proof. intros d ms s. unfold StakingCpc.finish, of_prog. destruct (run_native s ms) as [[s1 e1]|]; reflexivity. Qed.
+
+  Theorem cpc_step_is_native_prog : forall s caller c, cpc_step s caller c = of_prog caller (native_prog s caller c).
+  Proof.
+    intros s caller c.
+    destruct c as [v a|v a|src dst a|m sig|v| |m sig|to a]; cbn [StakingCpc.cpc_step].
+    - destruct (0 <? a) eqn:Ha.
+      + rewrite (prog_single_batch s caller _ [MsgDelegate caller v a]); auto. apply finish_of_prog.
+      + unfold StakingCpc.native_prog. cbn [StakingCpc.guard]. now rewrite Ha.
+    - destruct (0 <? a) eqn:Ha.
+      + rewrite (prog_single_batch s caller _ [MsgUndelegate caller v a]); auto. apply finish_of_prog.
+      + unfold StakingCpc.native_prog. cbn [StakingCpc.guard]. now rewrite Ha.
+    - destruct (0 <? a) eqn:Ha.
+      + rewrite (prog_single_batch s caller _ [MsgBeginRedelegate caller src dst a]); auto. apply finish_of_prog.
+      + unfold StakingCpc.native_prog. cbn [StakingCpc.guard]. now rewrite Ha.
+    - destruct (sm_valid m && sig_ok caller (sm_delegator m) (TStaking m) sig) eqn:Hg.
+      + pose proof Hg as Hg'. apply andb_prop in Hg' as [_ Hs]. apply sig_ok_spec in Hs as [Hc _].
+        destruct (sm_action m) eqn:Hact, (sm_validator m) as [v|] eqn:Hval, (sm_old m) as [|o|] eqn:Hold;
+          first [ unfold StakingCpc.native_prog; cbn [StakingCpc.guard StakingCpc.first_msgs]; rewrite Hg, Hact, ?Hval, ?Hold; reflexivity
+                | rewrite <- Hc; erewrite prog_single_batch;
+                  [apply finish_of_prog | exact Hg | cbn [StakingCpc.first_msgs]; rewrite Hact, Hval, ?Hold; reflexivity | reflexivity] ].
+      + unfold StakingCpc.native_prog. cbn [StakingCpc.guard]. now rewrite Hg.
+    - rewrite (prog_single_batch s caller _ [MsgWithdrawDelegatorReward caller v]); auto. apply finish_of_prog.
+    - rewrite (prog_single_batch s caller _ (withdraw_all_msgs s caller)); auto. apply finish_of_prog.
+    - destruct (wm_valid m && sig_ok caller (wm_delegator m) (TWithdraw m) sig) eqn:Hg.
+      + pose proof Hg as Hg'. apply andb_prop in Hg' as [_ Hs]. apply sig_ok_spec in Hs as [Hc _]. rewrite <- Hc.
+        destruct (wm_from m) as [|v|] eqn:Hfrom.
+        * erewrite prog_single_batch; [apply finish_of_prog | exact Hg | cbn [StakingCpc.first_msgs]; rewrite Hfrom; reflexivity | reflexivity].
+        * erewrite prog_single_batch; [apply finish_of_prog | exact Hg | cbn [StakingCpc.first_msgs]; rewrite Hfrom; reflexivity | reflexivity].
+        * unfold StakingCpc.native_prog. cbn [StakingCpc.guard StakingCpc.first_msgs]. now rewrite Hg, Hfrom.
+      + unfold StakingCpc.native_prog. cbn [StakingCpc.guard]. now rewrite Hg.
+    - unfold StakingCpc.native_prog. cbn [StakingCpc.guard StakingCpc.first_msgs StakingCpc.second_msgs].
+      destruct (negb (caller =? 0) && negb (to =? 0) && (caller =? to) && (0 <? a)); [|reflexivity].
+      destruct (run_native s (withdraw_all_msgs s caller)) as [[s1 e1]|]; [|reflexivity].
+      destruct (q_balance s1 caller <? a); [reflexivity|].
+      destruct (pick_validator (q_delegated_bonded s1 caller) (q_bonded s1)) as [v|]; [|reflexivity].
+      cbn [option_map StakingCpc.run_native].
+      destruct (native_step s1 (MsgDelegate caller v a)) as [[s2 e2]|]; [|reflexivity].
+      unfold StakingCpc.finish, of_prog. now rewrite app_nil_r.
+  Qed.
+
+  (* every message of the native submission is the submitter's own *)
+  Lemma native_prog_own : forall s d c s' evs ms,
+    native_prog s d c = Some (s', evs, ms) -> Forall (fun m => msg_delegator m = d) ms.
+  Proof.
+    intros s d c s' evs ms H.
+    pose proof (cpc_step_is_native_prog s d c) as E. rewrite H in E. unfold of_prog in E.
+    (* independent of whether the logs can be emitted: read it off the program *)
+    clear E. unfold StakingCpc.native_prog in H.
+    destruct (guard d c) eqn:Hg; [|discriminate].
+    destruct (first_msgs s d c) as [m1|] eqn:Hf; [|discriminate].
+    destruct (run_native s m1) as [[s1 e1]|]; [|discriminate].
+    destruct (second_msgs s1 d c) as [m2|] eqn:Hs; [|discriminate].
+    destruct (run_native s1 m2) as [[s2 e2]|]; [|discriminate]. inversion H; subst. apply Forall_app. split.
+    - destruct c as [v a|v a|src dst a|m sig|v| |m sig|to a]; cbn [StakingCpc.first_msgs] in Hf;
+        try (inversion Hf; subst; repeat constructor; fail);
+        try (inversion Hf; subst; apply withdraw_all_msgs_delegator).
+      + destruct (sm_action m), (sm_validator m), (sm_old m); inversion Hf; subst; repeat constructor.
+      + destruct (wm_from m); inversion Hf; subst; [apply withdraw_all_msgs_delegator | repeat constructor].
+    - destruct c as [v a|v a|src dst a|m sig|v| |m sig|to a]; cbn [StakingCpc.second_msgs] in Hs;
+        try (inversion Hs; subst; constructor; fail).
+      destruct (q_balance s1 d <? a); [discriminate|].
+      destruct (pick_validator (q_delegated_bonded s1 d) (q_bonded s1)); inversion Hs; subst. repeat constructor.
+  Qed.
+
+  (* ---------------------------------------------------------------- twin histories *)
+  Notation step_A := (step_A nstate native_step q_rewards q_balance q_delegated_bonded q_bonded chain_id typed_hash recover).
+  Notation step_B := (step_B nstate native_step q_rewards q_balance q_delegated_bonded q_bonded chain_id typed_hash recover).
+  Notation run_A := (run_A nstate native_step q_rewards q_balance q_delegated_bonded q_bonded chain_id typed_hash recover).
+  Notation run_B := (run_B nstate native_step q_rewards q_balance q_delegated_bonded q_bonded chain_id typed_hash recover).
+  Notation issued_A := (issued_A nstate native_step q_rewards q_balance q_delegated_bonded q_bonded chain_id typed_hash recover).
+
+  Lemma issued_A_own : forall ops s, Forall (fun p => msg_delegator (snd p) = fst p) (issued_A s ops).
+  Proof.
+    induction ops as [|o r IH]; intros s; cbn [StakingCpc.issued_A]; [constructor|].
+    apply Forall_app. split; [|apply IH].
+    destruct o as [sender path c|m|f]; try constructor.
+    destruct (cpc_step s (precompile_caller sender path) c) as [[[[s' logs] ret] ms]|] eqn:Hc; [|constructor].
+    apply acts_for_caller in Hc. apply Forall_forall. intros p Hp. apply in_map_iff in Hp as [m [<- Hm]].
+    rewrite Forall_forall in Hc. cbn [fst snd]. now apply Hc.
+  Qed.
+
+  Section Emits.
+    (* the native message servers announce every message they execute with one of the events the precompile looks
+       for (x/staking: delegate / unbond / redelegate; x/distribution: withdraw_rewards) *)
+    Hypothesis native_emits : forall s m s' evs, native_step s m = Some (s', evs) -> existsb counted evs = true.
+
+    Lemma run_native_counted : forall ms s s' evs,
+      run_native s ms = Some (s', evs) -> ms <> [] -> existsb counted evs = true.
+    Proof.
+      intros ms s s' evs H Hne. destruct ms as [|m r]; [contradiction|]. cbn [StakingCpc.run_native] in H.
+      destruct (native_step s m) as [[s1 e1]|] eqn:Hn; [|discriminate].
+      destruct (run_native s1 r) as [[s2 e2]|]; [|discriminate]. inversion H; subst.
+      rewrite existsb_app. now rewrite (native_emits _ _ _ _ Hn).
+    Qed.
+
+    Lemma run_native_silent : forall ms s s' evs,
+      run_native s ms = Some (s', evs) -> existsb counted evs = false -> s' = s /\ evs = [] /\ ms = [].
+    Proof.
+      intros ms s s' evs H Hf. destruct ms as [|m r].
+      - cbn in H. inversion H. auto.
+      - rewrite (run_native_counted _ _ _ _ H) in Hf; [discriminate | discriminate].
+    Qed.
+
+    (* a submission that announces nothing did nothing *)
+    Lemma native_prog_silent : forall s d c s' evs ms,
+      native_prog s d c = Some (s', evs, ms) -> existsb counted evs = false -> s' = s.
+    Proof.
+      intros s d c s' evs ms H Hf. unfold StakingCpc.native_prog in H.
+      destruct (guard d c); [|discriminate].
+      destruct (first_msgs s d c) as [m1|]; [|discriminate].
+      destruct (run_native s m1) as [[s1 e1]|] eqn:H1; [|discriminate].
+      destruct (second_msgs s1 d c) as [m2|]; [|discriminate].
+      destruct (run_native s1 m2) as [[s2 e2]|] eqn:H2; [|discriminate]. inversion H; subst.
+      rewrite existsb_app in Hf. apply orb_false_iff in Hf as [F1 F2].
+      destruct (run_native_silent _ _ _ _ H1 F1) as [-> _]. destruct (run_native_silent _ _ _ _ H2 F2) as [-> _]. reflexivity.
+    Qed.
+
+    Lemma step_A_eq_step_B : forall s o, step_A s o = step_B s o.
+    Proof.
+      intros s o. destruct o as [sender path c|m|f]; cbn [StakingCpc.step_A StakingCpc.step_B]; try reflexivity.
+      rewrite cpc_step_is_native_prog.
+      destruct (native_prog s (precompile_caller sender path) c) as [[[s' evs] ms]|] eqn:Hp; [|reflexivity].
+      unfold of_prog, emit. destruct (existsb counted evs) eqn:He; [reflexivity|].
+      symmetry. eapply native_prog_silent; eauto.
+    Qed.
+
+    Theorem twin_histories_agree : forall ops s, run_A s ops = run_B s ops.
+    Proof.
+      unfold StakingCpc.run_A, StakingCpc.run_B. induction ops as [|o r IH]; intros s; cbn [fold_left]; [reflexivity|].
+      now rewrite step_A_eq_step_B, IH.
+    Qed.
+  End Emits.
+
+  (* ---------------------------------------------------------------- third parties *)
+  Section Local.
+    (* any observation of one account's part of the state (balance, delegations, unbonding / redelegation entries)
+       which the native message servers change for nobody but the message's own delegator *)
+    Variable obs : Type.
+    Variable acct : nstate -> Z -> obs.
+    Hypothesis native_local : forall s m s' evs x,
+      native_step s m = Some (s', evs) -> x <> msg_delegator m -> acct s' x = acct s x.
+
+    Lemma run_native_local : forall d ms s s' evs x,
+      Forall (fun m => msg_delegator m = d) ms -> run_native s ms = Some (s', evs) -> x <> d -> acct s' x = acct s x.
+    Proof.
+      intros d. induction ms as [|m r IH]; intros s s' evs x HF H Hx; cbn [StakingCpc.run_native] in H.
+      - now inversion H.
+      - inversion HF as [|? ? Hm Hr]; subst.
+        destruct (native_step s m) as [[s1 e1]|] eqn:Hn; [|discriminate].
+        destruct (run_native s1 r) as [[s2 e2]|] eqn:Hrr; [|discriminate]. inversion H; subst.
+        rewrite (IH _ _ _ _ Hr Hrr Hx). eapply native_local; eauto.
+    Qed.
+
+    Theorem third_parties_untouched : forall s caller c s' logs ret ms x,
+      cpc_step s caller c = Some (s', logs, ret, ms) -> x <> caller -> acct s' x = acct s x.
+    Proof.
+      intros s caller c s' logs ret ms x H Hx. destruct (cpc_step_sound _ _ _ _ _ _ _ H) as [HF [evs [Hr _]]].
+      eapply run_native_local; eauto.
+    Qed.
+
+    (* along a whole history: a step that is a precompile call by someone else never changes x's part of the state *)
+    Theorem history_third_parties_untouched : forall s sender path c x,
+      x <> precompile_caller sender path -> acct (step_A s (OCall nstate sender path c)) x = acct s x.
+    Proof.
+      intros s sender path c x Hx. cbn [StakingCpc.step_A].
+      destruct (cpc_step s (precompile_caller sender path) c) as [[[[s' logs] ret] ms]|] eqn:Hc; [|reflexivity].
+      eapply third_parties_untouched; eauto.
+    Qed.
+  End Local.
 End Cpc.
 
 (* ---------------------------------------------------------------- transfer(): the validator choice *)
